@@ -1303,7 +1303,7 @@ seq_t dtw_warping_paths_ndim(seq_t *wps,
     // D. Rows: MAX(overlap_left_ri, overlap_right_ri) < ri <= l1
     // [x 0 0 0 0]
     // [x x 0 0 0]
-    min_ci = MAX(0, p.ri3 + 1 - p.window - p.ldiff );
+    min_ci = MAX(0, p.ri3 + 1 - p.window - p.ldiffr);  // band starts window + (l1 - l2 if positive) before the diagonal
     wpsi_start = 2;
     if (p.ri2 == p.ri3) {
         // C is skipped
@@ -1702,7 +1702,7 @@ seq_t dtw_warping_paths_ndim_euclidean(seq_t *wps,
     // D. Rows: MAX(overlap_left_ri, overlap_right_ri) < ri <= l1
     // [x 0 0 0 0]
     // [x x 0 0 0]
-    min_ci = MAX(0, p.ri3 + 1 - p.window - p.ldiff );
+    min_ci = MAX(0, p.ri3 + 1 - p.window - p.ldiffr);  // band starts window + (l1 - l2 if positive) before the diagonal
     wpsi_start = 2;
     if (p.ri2 == p.ri3) {
         // C is skipped
@@ -2204,7 +2204,7 @@ seq_t dtw_warping_paths_affinity_ndim(seq_t *wps,
     // D. Rows: MAX(overlap_left_ri, overlap_right_ri) < ri <= l1
     // [x 0 0 0 0]
     // [x x 0 0 0]
-    min_ci = MAX(0, p.ri3 + 1 - p.window - p.ldiff );
+    min_ci = MAX(0, p.ri3 + 1 - p.window - p.ldiffr);  // band starts window + (l1 - l2 if positive) before the diagonal
     wpsi_start = 2;
     if (p.ri2 == p.ri3) {
         // C is skipped
@@ -2542,7 +2542,7 @@ seq_t dtw_warping_paths_affinity_ndim_euclidean(seq_t *wps,
     // D. Rows: MAX(overlap_left_ri, overlap_right_ri) < ri <= l1
     // [x 0 0 0 0]
     // [x x 0 0 0]
-    min_ci = MAX(0, p.ri3 + 1 - p.window - p.ldiff );
+    min_ci = MAX(0, p.ri3 + 1 - p.window - p.ldiffr);  // band starts window + (l1 - l2 if positive) before the diagonal
     wpsi_start = 2;
     if (p.ri2 == p.ri3) {
         // C is skipped
